@@ -1,4 +1,7 @@
 """C02 - each stream task receives its selected points exactly once, in order (spec/Routing)."""
+import json
+import os
+
 import verifylib as V
 
 ASSUME = [
@@ -9,45 +12,122 @@ ASSUME = [
     "TLC fingerprint collisions are negligible; the libflux link stub is never executed",
 ]
 
-# many trace validations run side by side (and next to other checks): keep each JVM small
-JVM_SMALL = {"JAVA_TOOL_OPTIONS": "-Xmx1500m -XX:ParallelGCThreads=2"}
-JVM_MED = {"JAVA_TOOL_OPTIONS": "-Xmx3g -XX:ParallelGCThreads=2"}
+MODELS = {
+    "quick": ["Routing_quick.cfg"],
+    # 2 tasks x 8 shapes, 2 writes, 4 lifecycle calls | 3 tasks | 1 task, 4 writes
+    "thorough": ["Routing_thorough.cfg", "Routing_thorough3.cfg", "Routing_thorough_deep.cfg"],
+}
+
+
+def _first_trace_with_obs(path, max_lines=4000):
+    """First trace (Reset..End) that has an Obs line with a sink of >= 2 arrivals."""
+    cur = []
+    with open(path) as f:
+        for n, ln in enumerate(f):
+            if n > max_lines:
+                break
+            ln = ln.rstrip("\n")
+            if ln.startswith('{"ev":"Reset"'):
+                cur = []
+            cur.append(ln)
+            if '"ev":"End"' in ln:
+                for i, x in enumerate(cur):
+                    o = json.loads(x)
+                    if o["ev"] == "Obs" and any(len(s) >= 2 for s in o["sinks"]):
+                        return cur, i
+    return None, None
+
+
+def selftest(sc, seq_file):
+    """Binding self-test: corrupt ONE logged field of a recorded trace in five ways; the
+    verdict-level specification must reject each at exactly that line (else it is vacuous)."""
+    tr, i = _first_trace_with_obs(seq_file)
+    if tr is None:
+        raise V.Broken("self-test: no trace with a non-trivial Obs line found")
+    obs = json.loads(tr[i])
+    k = next(j for j, s in enumerate(obs["sinks"]) if len(s) >= 2)
+
+    def variant(fn):
+        o = json.loads(tr[i])
+        fn(o["sinks"][k])
+        return tr[:i] + [json.dumps(o, separators=(",", ":"), sort_keys=True)] + tr[i + 1:]
+
+    def foreign(s):
+        s[0]["s"] = 9999
+
+    cases = {
+        "lost": lambda s: s.pop(0),
+        "duplicated": lambda s: s.insert(1, dict(s[0])),
+        "reordered": lambda s: s.__setitem__(slice(0, 2), [s[1], s[0]]),
+        "altered": lambda s: s[0].__setitem__("sig", s[0]["sig"] + "x"),
+        "foreign": foreign,
+    }
+    d = sc.sub("selftest")
+    files = {}
+    for name, fn in cases.items():
+        fp = os.path.join(d, name + ".ndjson")
+        with open(fp, "w") as f:
+            f.write("\n".join(variant(fn)) + "\n")
+        files[fp] = name
+    val = V.validate_traces(sc, "Routing", "RoutingTraceMC.tla", "RoutingTrace.cfg", list(files))
+    rejected = {fp: ln for fp, ln, _ in val["rejections"]}
+    for fp, name in files.items():
+        if rejected.get(fp) != i + 1:
+            raise V.Broken("self-test: a %s delivery in a recorded trace was not rejected at its Obs line (got %r)" % (name, rejected.get(fp)))
+    # and the unmodified trace is accepted
+    fp = os.path.join(d, "original.ndjson")
+    with open(fp, "w") as f:
+        f.write("\n".join(tr) + "\n")
+    if not V.validate_traces(sc, "Routing", "RoutingTraceMC.tla", "RoutingTrace.cfg", [fp])["accepted"]:
+        raise V.Broken("self-test: the unmodified trace is rejected")
+    return sorted(cases)
 
 
 def run(sc, tier, seed):
     R = V.Result("C02", tier, seed)
     V.build_harness()
     # design level: every interleaving of writes, forkPoint, task consumption and lifecycle calls
-    cfg = "Routing_quick.cfg" if tier == "quick" else "Routing_thorough.cfg"
-    R.add_model(V.model_check(sc, "Routing", "RoutingMC.tla", cfg, timeout=1500))
-    # observation: without per-point de-duplication in forkPoint the model must show the double delivery
-    obs = V.model_check(sc, "Routing", "RoutingMC.tla", "Routing_nodedup.cfg", workers=4, timeout=600,
-                        expect_violation={"ExactlyOnce"})
-    if obs["violated"] != "ExactlyOnce":
-        raise V.Broken("Routing_nodedup.cfg no longer yields the ExactlyOnce counterexample: the invariant has become vacuous")
+    for cfg in MODELS[tier]:
+        R.add_model(V.model_check(sc, "Routing", "RoutingMC.tla", cfg, workers=8, timeout=2400))
+    # negative controls: the code-shaped model WITHOUT the two repairs must show the defects
+    # (forkPoint without per-point de-duplication; StartTask that fails without removing its fork)
+    for cfg, inv in (("Routing_nodedup.cfg", "ExactlyOnce"), ("Routing_nocleanup.cfg", "TableConsistent")):
+        obs = V.model_check(sc, "Routing", "RoutingMC.tla", cfg, workers=2, timeout=900, expect_violation={inv})
+        if obs["violated"] != inv:
+            raise V.Broken("%s no longer yields the %s counterexample: the invariant has become vacuous" % (cfg, inv))
     # B1/B3: systematic, random and concurrent histories on the real TaskMaster
     out, meta = V.run_driver(sc, "c02", tier, seed, timeout=3000)
     R.add_meta(meta)
+    stuck = meta.get("extra", {}).get("stuck_lifecycle_calls") or []
+    for h in stuck:
+        V.log("stuck lifecycle call (TaskMaster abandoned, trace cut short):", h)
     files = meta["trace_files"]
+    seq = [f for f in files if f.endswith("seq.ndjson")]
+    # impl level: the histories with races always, the exhaustive singles/pairs in the thorough tier
+    impl_files = [f for f in files if f.endswith("mix.ndjson")] + (seq if tier == "thorough" else [])
     # verdict level: every recorded line against what the property promises
-    val = V.validate_traces(sc, "Routing", "RoutingTraceMC.tla", "RoutingTrace.cfg", files, env_extra=JVM_SMALL)
+    val = V.validate_traces(sc, "Routing", "RoutingTraceMC.tla", "RoutingTrace.cfg", files, timeout=2400)
     R.states += val["states"]
     R.handle_validation(val)
     # impl level (drift only, never a verdict): the sequential traces against the code-shaped model
-    drift = []
+    drift, corrupted = [], []
     if val["accepted"]:
-        seq = [f for f in files if f.endswith("seq.ndjson")]
-        val2 = V.validate_traces(sc, "Routing", "RoutingTraceMC.tla", "RoutingImplTrace.cfg", seq, env_extra=JVM_MED)
+        corrupted = selftest(sc, seq[0])
+        val2 = V.validate_traces(sc, "Routing", "RoutingTraceMC.tla", "RoutingImplTrace.cfg", impl_files, timeout=2400)
         R.states += val2["states"]
         for fp, line_no, res in val2["rejections"]:
             seg, _ = V.segment_of(fp, line_no)
             drift.append({"line": seg[-1][:300] if seg else "?", "trace_len": len(seg)})
             V.log("impl drift (not a violation): code-shaped model cannot explain", seg[-1][:200] if seg else "?")
-    return R.finish("model_checking", ASSUME, {"impl_drift": drift, "impl_level_validated": bool(val["accepted"])})
+    if stuck and not R.violations:
+        # a missed deadline is never a verdict: without a recorded violation the check is broken
+        raise V.Broken("lifecycle calls did not return (TaskMaster stuck): " + "; ".join(stuck))
+    return R.finish("model_checking", ASSUME, {
+        "impl_drift": drift, "impl_level_validated": bool(val["accepted"]),
+        "selftest_corruptions_rejected": corrupted, "model_configs": MODELS[tier] + ["Routing_nodedup.cfg, Routing_nocleanup.cfg (expected counterexamples)"]})
 
 
 def replay(sc, path):
-    import os
     seg = os.path.join(path, "segment.ndjson")
     val = V.validate_traces(sc, "Routing", "RoutingTraceMC.tla", "RoutingTrace.cfg", [seg])
     if val["accepted"]:
